@@ -16,6 +16,7 @@ type replayDriver struct {
 	File   string `json:"file"`    // relative to /verif/replay
 	Test   string `json:"test"`
 	Race   bool   `json:"race"` // run under the race detector; a reported race (or runtime map-race crash) reproduces
+	Kind   string `json:"kind"` // "search": the driver looks for a failing input in a small family instead of using the solver's model
 }
 
 var mutantOverlay map[string]string // set when govc runs on an overlay (selftest)
@@ -63,6 +64,11 @@ func runReplayDriver(s *Session, verif, prop string, r *OblResult, replayPath st
 	var m map[string]any
 	if rd, err := os.ReadFile(replayPath); err == nil && json.Unmarshal(rd, &m) == nil {
 		m["reproduced"] = reproduced
+		if d.Kind == "search" {
+			m["replay_kind"] = "search: the solver gave no readable model for this (quantified) obligation; the driver ran the real functions on a small family of inputs and reports the first ones that contradict the contract"
+		} else {
+			m["replay_kind"] = "model: inputs built from the solver's counter-model"
+		}
 		m["replay_cmd"] = fmt.Sprintf("cd %s && GOVC_REPLAY=%s go test -overlay %s -vet=off -count=1 -run '^%s$' ./%s/", s.repo, replayPath, ovPath, d.Test, d.PkgDir)
 		m["replay_output"] = truncate(text, 6000)
 		nb, _ := json.MarshalIndent(m, "", " ")
